@@ -25,8 +25,16 @@ def showRecorders (rs : List Recorder) : String :=
 
 def showWorld (w : World) : String :=
   let m := match w.mgr with
-    | some s => s!"m=1 mid={s.cur.id} mstart={s.cur.start} mdur={s.cfg.duration} mgen={s.cfg.genesis} hooks={showHooks s.hooks}"
-    | none => "m=0 mid=0 mstart=0 mdur=0 mgen=0 hooks=-"
+    | some s =>
+      -- `Epoch{id}` of the previous and of the next id
+      let q := fun (id : Nat) => match s.queryEpoch id with
+        | .ok e => s!"{e.id}:{e.start}"
+        | .err => "err"
+        | .panic => "panic"
+      let prev := if s.cur.id = 0 then "-" else q (s.cur.id - 1)
+      let nxt := if s.cur.id ≥ U64MAX then "-" else q (s.cur.id + 1)
+      s!"m=1 mid={s.cur.id} mstart={s.cur.start} mdur={s.cfg.duration} mgen={s.cfg.genesis} mq={prev}/{nxt} hooks={showHooks s.hooks}"
+    | none => "m=0 mid=0 mstart=0 mdur=0 mgen=0 mq=-/- hooks=-"
   let d := match w.dist with
     | some s => s!"d=1 did={s.cur.id} dstart={s.cur.start} ddur={s.cfg.duration} dgen={s.cfg.genesis}"
     | none => "d=0 did=0 dstart=0 ddur=0 dgen=0"
